@@ -219,10 +219,14 @@ package appencryption
 //@   ensures [C09:references-balanced] forall k *cachedCryptoKey :: owed(k) == old(owed(k))
 //@   ensures [C06:foreign-id-rejected-before-any-lookup] drr.Key != nil && drr.Key.ParentKeyMeta != nil && !validIK(e.partition, old(drr.Key.ParentKeyMeta.ID)) ==> err != nil && result == nil && ext_calls == old(ext_calls)
 
+// a key cache with an eviction policy is built with a capacity of at least one and a policy the cache package knows
+//@ spec fn cacheCfgOK(pol string, size int) bool = pol == "" || pol == "simple" || ((pol == "lru" || pol == "lfu" || pol == "slru" || pol == "tinylfu") && size >= 1)
+
 //@ func (*SessionFactory).GetSession
 //@   names f, id
 //@   facet C06
 //@   opt no-frame
+//@   requires f != nil && f.Config != nil && f.Config.Policy != nil && (f.Config.Policy.SharedIntermediateKeyCache || cacheCfgOK(f.Config.Policy.IntermediateKeyCacheEvictionPolicy, f.Config.Policy.IntermediateKeyCacheMaxSize))
 //@   ensures [C06:empty-partition-refused] id == "" ==> err != nil && result == nil
 
 // ---- Metastore (interface contract; fault-inclusive; rows are arbitrary: any field may be nil/empty) ----
@@ -642,7 +646,7 @@ package appencryption
 //@   names f, id
 //@   facet C20
 //@   opt no-frame
-//@   requires f != nil && f.Config != nil && f.Config.Policy != nil
+//@   requires f != nil && f.Config != nil && f.Config.Policy != nil && (f.Config.Policy.SharedIntermediateKeyCache || cacheCfgOK(f.Config.Policy.IntermediateKeyCacheEvictionPolicy, f.Config.Policy.IntermediateKeyCacheMaxSize))
 //@   ensures [C20:sessions-share-the-factory-s-system-key-cache] err == nil ==> result != nil && result.skCache == old(f.systemKeys) && istype(result.encryption, *envelopeEncryption) && dyn(result.encryption, *envelopeEncryption).skCache == old(f.systemKeys)
 //@   ensures [C20:shared-ik-cache-when-enabled] err == nil && old(f.Config.Policy.SharedIntermediateKeyCache) ==> dyn(result.encryption, *envelopeEncryption).ikCache == old(f.intermediateKeys)
 
